@@ -32,7 +32,7 @@ from ..evidence import Run, canon_hash
 PID = "C05"
 SHARDS = {"quick": 8, "thorough": 16}
 N = {"quick": 288, "thorough": 9600}
-SHARD_TIMEOUT = {"quick": 300, "thorough": 1700}
+SHARD_TIMEOUT = {"quick": 900, "thorough": 2400}
 
 
 def new_run():
@@ -368,18 +368,25 @@ def _reset_config():
 
 
 def finalize(run, ctx):
-    q = ctx.tier == "quick"
-    for name, m in [("FP:evaluated", 3000), ("EQ:evaluated", 2500),
-                    ("VER:evaluated", 2000), ("VER:agree", 1000),
-                    ("FP:after:validate", 120), ("FP:after:transform", 40),
-                    ("FP:after:statistics", 15), ("FP:after:to_script", 10),
-                    ("FP:after:to_yaml", 10), ("FP:after:pickle", 10),
-                    ("FP:after:deepcopy", 10), ("FP:after:model_validate", 8),
-                    ("feature:regex", 20), ("feature:df_checks", 8),
-                    ("feature:tz_agnostic", 8), ("feature:key!=name", 5),
-                    ("schema:pandas:model", 15), ("schema:pandas:frame", 50),
+    # floors ~ 1/4 of what the unchanged tree gives (quick: 288 cases)
+    k = 1 if ctx.tier == "quick" else 20
+    for name, m in [("FP:evaluated", 2000), ("EQ:evaluated", 2000),
+                    ("VER:evaluated", 1400), ("VER:agree", 1000),
+                    ("FP:after:validate", 160), ("FP:after:transform", 60),
+                    ("FP:after:derived_validate", 35),
+                    ("FP:after:statistics", 30), ("FP:after:to_script", 15),
+                    ("FP:after:to_yaml", 20), ("FP:after:to_json", 12),
+                    ("FP:after:pickle", 15), ("FP:after:deepcopy", 12),
+                    ("FP:after:coerce_dtype", 15), ("FP:after:model_validate", 6),
+                    ("FP:after:model_misc", 5), ("FP:after:strategy", 5),
+                    ("FP:after:example", 5),
+                    ("feature:regex", 20), ("feature:df_checks", 10),
+                    ("feature:tz_agnostic", 6), ("feature:key!=name", 4),
+                    ("feature:multiindex", 4), ("feature:index", 8),
+                    ("schema:pandas:model", 10), ("schema:pandas:frame", 35),
+                    ("schema:pandas:series", 4), ("schema:pandas:column", 4),
                     ("schema:polars:frame", 10)]:
-        run.floors[name] = m if q else m * 8
+        run.floors[name] = m * k
 
 
 def replay(path):
